@@ -49,6 +49,7 @@ NAMES = {'ud': {'m1': 'udparsers.x6666.x6666', 'm2': 'udparsers.y6666.y6666', 'a
          'osrc': {'m1': 'srcparsers.oaa00.oaa00', 'm2': 'srcparsers.bsrc.bsrc', 'a1': 'srcparsers.occ00.occ00',
                   'b1': 'srcparsers.odd00.odd00'}}
 BEHSEL = {'ok': 0, 'nondict': 1, 'none': 2, 'raise': 3, 'importerror': 4, 'raise_empty': 5}
+SRC_BEHSEL = dict(BEHSEL, none=6)        # SRC parsers: digit 2 returns '', digit 6 returns None (nothing at all)
 PROC = {'ok': 'FIX0001', 'nondict': 'FIXJUNK', 'none': 'NOSUCH1', 'raise': 'FIXBOOM', 'importerror': 'FIXIMPT',
         'raise_empty': 'FIXEMPT'}
 
@@ -119,13 +120,13 @@ def realise(rng, item, serial):
     elif c == 'src':
         creator = MODMAP['src'][mod]
         s = genpel.gen_src(rng, 'PS', ncallouts=-1, kind='other')
-        s['words'][0][3] = (s['words'][0][3] & 0xF0) | BEHSEL[beh]
+        s['words'][0][3] = (s['words'][0][3] & 0xF0) | (SRC_BEHSEL if rng.random() < .5 else BEHSEL)[beh]
         secs = [s]
     elif c == 'osrc':
         creator = 'O'
         s = genpel.gen_src(rng, 'PS', ncallouts=-1, kind='BD')
         s['ascii'] = encode.text(MODMAP['osrc'][mod] + '%02X' % rng.randrange(256), 32, 0x20)
-        s['words'][0][3] = (s['words'][0][3] & 0xF0) | BEHSEL[beh]
+        s['words'][0][3] = (s['words'][0][3] & 0xF0) | (SRC_BEHSEL if rng.random() < .5 else BEHSEL)[beh]
         s['comp'] = [0x35, 0x00]
         secs = [s]
     elif c == 'co':
